@@ -99,8 +99,10 @@ def c14_scenarios(scripts, seed, quick, call, scn):
     # special payloads (attributes, binary, empty) through the push path
     steps = [{"do": "endpoint", "script": {}, "default": [500, 200]},
              call(1, op="CreateTopic", name=T1), call(1, op="CreateSub", name=S1, topic=T1, ack=10, push="$EP"),
-             call(1, op="Publish", topic=T1, msgs=[{"p": "attrs#1"}, {"p": "utf8#1"}, {"p": "bin#1"}, {"p": "empty#1"}, {"p": "ws#1"}]),
-             {"do": "waithttp", "n": 10, "ms": 4000}, {"do": "advance", "ms": 150}]
+             # (messages WITHOUT attributes in between and at the end: nothing of a neighbour sticks to them)
+             call(1, op="Publish", topic=T1, msgs=[{"p": "attrs#1"}, {"p": "plain-1"}, {"p": "utf8#1"}, {"p": "bin#1"}, {"p": "plain-2"},
+                                                   {"p": "empty#1"}, {"p": "ws#1"}, {"p": "plain-3"}]),
+             {"do": "waithttp", "n": 16, "ms": 4000}, {"do": "advance", "ms": 150}]
     finish(scn("c14-payloads", steps, seed=seed))
     # no answer within the ack deadline for one message while its sibling is accepted at once: the
     # clock jumps across the deadline while the endpoint holds the open exchange
@@ -229,6 +231,24 @@ def c14_scenarios(scripts, seed, quick, call, scn):
     for j in range(len(weird)):
         s3["meta"]["proj"]["projects/p1/subscriptions/s%d" % (j + 10)] = "p1"
     finish(s3, push=False)
+    # several push subscriptions on ONE topic, each with an endpoint of its own (and one pulled
+    # sibling): every message is POSTed once per subscription, to that subscription's endpoint,
+    # naming that subscription - first refused, then accepted
+    for k in range(2 if quick else 8):
+        names = [S1, S2, "projects/p1/subscriptions/s3"][:2 + k % 2]
+        eps = ["$EP/a", "$EP", "$EP/c/d"]
+        steps = [{"do": "endpoint", "script": {}, "default": [[500, 200], [200], [503, 404, 204]][k % 3]},
+                 call(1, op="CreateTopic", name=T1)]
+        for j, nm in enumerate(names):
+            steps.append(call(1, op="CreateSub", name=nm, topic=T1, ack=10, push=eps[(j + k) % 3]))
+        steps.append(call(1, op="CreateSub", name="projects/p1/subscriptions/s4", topic=T1, ack=10))
+        n_msgs = 1 + k % 3
+        steps.append(call(1, op="Publish", topic=T1, msgs=[{"p": "tw%d-%d" % (k, j)} for j in range(n_msgs)]))
+        per = len([[500, 200], [200], [503, 404, 204]][k % 3])
+        steps += [{"do": "waithttp", "n": per * n_msgs * len(names), "ms": 6000}, {"do": "advance", "ms": 150}]
+        steps += [call(2, op="Pull", sub=nm, max=10, ri=True) for nm in names]
+        steps += [call(2, op="Pull", sub="projects/p1/subscriptions/s4", max=10, ri=True)]
+        finish(scn("c14-twins-%d" % k, steps, seed=seed + k))
     # an endpoint on which nothing listens, and an unsupported endpoint
     steps = [{"do": "endpoint", "script": {}, "default": [200]},
              call(1, op="CreateTopic", name=T1), call(1, op="CreateSub", name=S1, topic=T1, ack=10, push="$DEAD"),
